@@ -6,10 +6,11 @@ Driver op of the concrete instance model (`MdVerif/Model/InstanceX.lean`):
 `<flags>` as `convertx`.  `<ev>`: `R` = `md.reset()`, `C<str>` = `md.convert(str)`.  One `<outcome>` per conversion:
 `K<str>` (ok), `F` (out of fuel), `E` (raises), `D` (outside the modelled domain).  `<state>` is the state after the
 history: `X` when it is not modelled (`valid = false`), otherwise
-`V<refs>#<footnotes>#<abbrs>#<html>#<used_refs>#<found_refs>` with
+`V<refs>#<footnotes>#<abbrs>#<html>#<used_refs>#<found_refs>#<toc>#<toc_tokens>` with
   refs        the reference writes of the log in order, `id~url~title` joined by `;` (title `N` / `S<str>`), `-` if none
   footnotes   `id~text` joined by `;`   (the decoded table, in order)          abbrs  likewise
   html        list of strings           used_refs  list of strings             found_refs  `key~count` joined by `;`
+  toc         `md.toc`                  toc_tokens `level~id~name` joined by `;` (flat, document order)
 -/
 import MdVerif.Model.InstanceX
 import Driver.PipelineXOps
@@ -36,7 +37,9 @@ def encStateX (st : InstanceX.MdSt) : String :=
       encRowsX (st.abbrs.map (fun kv => encStr kv.1 ++ "~" ++ encStr kv.2)),
       encList st.html,
       encList st.fn.usedRefs,
-      encRowsX (st.fn.foundRefs.map (fun kv => encStr kv.1 ++ "~" ++ toString kv.2)) ]
+      encRowsX (st.fn.foundRefs.map (fun kv => encStr kv.1 ++ "~" ++ toString kv.2)),
+      (match st.toc with | some t => encStr t | none => "?"),
+      encRowsX (st.tocTokens.map (fun t => toString t.level ++ "~" ++ encStr t.id ++ "~" ++ encStr t.name)) ]
 
 def instanceXHandler : Handler := fun op args =>
   match op, args with
